@@ -189,7 +189,7 @@ theorem extract_partition (b : Bytes) : (extract b).1.flatten ++ (extract b).2 =
     exact List.take_append_drop _ _
 
 /-! ### the send loop over an arbitrary schedule -/
-theorem getReq_setReq (s : State) (id : Nat) (f : Req → Req) (h : id < s.reqs.length) :
+theorem getReq_setReq_at (s : State) (id : Nat) (f : Req → Req) (h : id < s.reqs.length) :
     (s.setReq id f).getReq id = f (s.getReq id) := by
   simp [State.getReq, State.setReq, List.getD_eq_getElem?_getD, h]
 
@@ -251,7 +251,7 @@ theorem sendLoop_contiguous : ∀ (fuel : Nat) (sends : List SendRes) (s : State
         have hid2 : id < (logSent s (((s.getReq id).raw.drop (s.getReq id).sent).take c)).reqs.length := by
           rw [logSent_reqs]; exact hid
         obtain ⟨k', h1, h2, h3, h4⟩ := sendLoop_contiguous fuel rest _ id hid1 hn
-        rw [getReq_setReq _ _ _ hid2, logSent_getReq] at h1 h2 h3
+        rw [getReq_setReq_at _ _ _ hid2, logSent_getReq] at h1 h2 h3
         simp only at h1 h2 h3
         refine ⟨c + k', by rw [h1]; omega, h2, ?_, by rw [h4, setReq_reqs_length, logSent_reqs]⟩
         rw [h3, setReq_conns, logSent_flatten, List.append_assoc, List.take_add, List.drop_drop]
@@ -296,7 +296,7 @@ theorem sendLoop_done_complete : ∀ (fuel : Nat) (sends : List SendRes) (s : St
             (min (max k 1) ((s.getReq id).raw.length - (s.getReq id).sent)))).setReq id
             fun q => { q with sent := q.sent + min (max k 1) ((s.getReq id).raw.length - (s.getReq id).sent) }).reqs.length := by
           rw [setReq_reqs_length]; exact hid2
-        have hg := getReq_setReq (logSent s (((s.getReq id).raw.drop (s.getReq id).sent).take
+        have hg := getReq_setReq_at (logSent s (((s.getReq id).raw.drop (s.getReq id).sent).take
             (min (max k 1) ((s.getReq id).raw.length - (s.getReq id).sent)))) id
             (fun q => { q with sent := q.sent + min (max k 1) ((s.getReq id).raw.length - (s.getReq id).sent) }) hid2
         rw [logSent_getReq] at hg
